@@ -164,6 +164,65 @@ def run(ctx):
     if n4 < 1:
         raise AnalysisBroken("no `lo | hi << 32` assembly found in orcexecutor.c")
 
+    # ---- D5: saturation agrees with the reference (doc/opcode_table.xml) --------------------------
+    # An opcode whose reference pseudo code is clamp(...) / sign(a) must saturate in the emulator; every other opcode
+    # must NOT contain a saturation that can take effect (two's-complement wrap-around).  "Can take effect" is decided
+    # by interval arithmetic over the declared operand types, so a clamp that is provably a no-op is accepted.
+    import html
+    from interval import bounds, enclosing_assignment, interval
+    xml = open(ctx.repo + "/doc/opcode_table.xml").read()
+    doc = {}
+    for r in re.findall(r"<row>(.*?)</row>", xml, re.S):
+        e = [html.unescape(x).strip() for x in re.findall(r"<entry>(.*?)</entry>", r, re.S)]
+        if len(e) >= 6 and re.match(r"^[a-z0-9]+$", e[0]) and e[0] != "opcode":
+            doc[e[0]] = e
+    if len(doc) < 150:
+        raise AnalysisBroken("doc/opcode_table.xml: only %d opcode rows parsed" % len(doc))
+    nsat = 0
+    for name, e in sorted(emus.items()):
+        if e.op not in doc:
+            continue
+        row = doc[e.op]
+        desc, pseudo = row[4], row[5]
+        m = re.match(r"^clamp\((.*?)(?:,\s*(-?\d+)\s*,\s*(-?\d+))?\)$", pseudo)
+        want = None
+        if m and m.group(2) is not None:
+            want = (int(m.group(2)), int(m.group(3)))
+        elif m:
+            bits = 8 * int(row[1])
+            uns = (" to unsigned" in desc) or (" to signed" not in desc and "unsigned" in desc)
+            want = (0, (1 << bits) - 1) if uns else (-(1 << (bits - 1)), (1 << (bits - 1)) - 1)
+        elif pseudo == "sign(a)":
+            want = (-1, 1)
+        bs = bounds(e.f)
+        eff = [b for b in bs if b[5]]
+        w = where(e.f)
+        if want is None:
+            rep.check(not eff, "D5-SATURATION", w, "wraps:%s" % e.op,
+                      "reference `%s` does not saturate and the emulator contains no bound against a constant that can take effect (%d no-op bounds)" % (pseudo, len(bs)),
+                      "the reference defines %s as `%s` (no saturation: the result wraps) but emulate_%s bounds `%s` %s by %s although that operand ranges over %s" %
+                      ((e.op, pseudo, e.op, unparse(eff[0][1])[:60], "below" if eff[0][2] == "lo" else "above", eff[0][3], eff[0][4]) if eff else ("",) * 7),
+                      line=eff[0][0].line if eff else None)
+        else:
+            nsat += 1
+            probs = []
+            for b in eff:
+                if b[3] != (want[0] if b[2] == "lo" else want[1]):
+                    probs.append("bounds `%s` %s by %d" % (unparse(b[1])[:50], "below" if b[2] == "lo" else "above", b[3]))
+            asg = {id(a): a for a in (enclosing_assignment(b[0]) for b in eff) if a is not None}
+            if not eff:
+                probs.append("contains no saturation that can take effect")
+            for a in asg.values():
+                iv = interval(a.c[1])
+                if iv is None or iv[0] < want[0] or iv[1] > want[1]:
+                    probs.append("the value assigned at line %s ranges over %s" % (a.line, iv))
+            rep.check(not probs, "D5-SATURATION", w, "saturates:%s" % e.op,
+                      "reference `%s` (%s): every effective bound is one of [%d, %d] and the result stays inside" % (pseudo, desc, want[0], want[1]),
+                      "the reference defines %s as `%s` (%s), i.e. saturation to [%d, %d]; emulate_%s %s" %
+                      (e.op, pseudo, desc, want[0], want[1], e.op, "; ".join(probs[:3])))
+    if nsat < 25:
+        raise AnalysisBroken("only %d saturating opcodes recognised in the reference table" % nsat)
+
 
 def emus_dispatch_source(ee):
     for n in ee.walk():
